@@ -9,8 +9,10 @@ gate-accepted events are written; an invalid event is skipped or makes the call 
 written.
 -/
 import EdxmlModel.Stream.Mediator
+import EdxmlModel.Transcode.Lookup
 import EdxmlProps.C02
 import EdxmlProps.Lemmas.Merge
+import Mathlib.Data.List.Induction
 namespace EdxmlProps.C17
 open Edxml EdxmlProps.C02
 
@@ -296,5 +298,152 @@ example : (mclose (mrun false { types := ["t"], sources := ["/a/"], curSource :=
      .record [⟨4, "t", true⟩]])).w.out =
     [.ont .ok ["t"] ["/a/"], .event 1 "t" "/a/" true, .ont .ok ["t"] ["/a/", "/b/"], .event 4 "t" "/b/" true] := by
   decide +kernel
+
+/-! ### object values are taken from the record fields named in the property map -/
+
+section lookup
+open Edxml.Transcode
+
+theorem getProp_map_set (ps : List (String × List RVal)) (p q : String) (vs : List RVal) :
+    getProp (ps.map fun kv => if kv.1 == p then (p, vs) else kv) q =
+      if q = p then (if ps.any (·.1 == p) then some vs else none) else getProp ps q := by
+  unfold getProp
+  induction ps with
+  | nil => by_cases hq : q = p <;> simp [hq]
+  | cons kv rest ih =>
+    obtain ⟨k, v⟩ := kv
+    simp only [List.map_cons, List.find?_cons, List.any_cons]
+    by_cases hk : k = p
+    · subst hk
+      by_cases hq : q = k
+      · subst hq; simp
+      · have hkq : (k == q) = false := by simpa using fun e => hq e.symm
+        simp only [beq_self_eq_true, if_true, hkq, hq, if_false]
+        simpa [hq] using ih
+    · have hkp : (k == p) = false := by simpa using hk
+      simp only [hkp, Bool.false_eq_true, if_false, Bool.false_or]
+      by_cases hkq : k = q
+      · subst hkq
+        simp [hk]
+      · have hb : (k == q) = false := by simpa using hkq
+        simp only [hb]
+        exact ih
+
+theorem getProp_setProp (ps : List (String × List RVal)) (p q : String) (vs : List RVal) :
+    getProp (setProp ps p vs) q = if q = p then some vs else getProp ps q := by
+  unfold setProp
+  by_cases hany : ps.any (·.1 == p) = true
+  · rw [if_pos hany, getProp_map_set, hany]
+    simp
+  · rw [if_neg hany]
+    have hnone : ∀ kv ∈ ps, (kv.1 == p) = false := by
+      intro kv hkv
+      have := hany
+      simp only [List.any_eq_true, not_exists, not_and] at this
+      simpa using this kv hkv
+    unfold getProp
+    rw [List.find?_append]
+    by_cases hq : q = p
+    · subst hq
+      have : ps.find? (fun x => x.1 == q) = none := by
+        rw [List.find?_eq_none]
+        intro kv hkv
+        simpa using hnone kv hkv
+      simp [this]
+    · have hb : (p == q) = false := by simpa using fun e => hq e.symm
+      simp only [hq, if_false]
+      cases hf : ps.find? (fun x => x.1 == q) with
+      | some r => simp
+      | none => simp [hb]
+
+theorem getProp_setAll (ps : List (String × List RVal)) (names : List String) (vs : List RVal) (q : String) :
+    getProp (names.foldl (fun ps p => setProp ps p vs) ps) q = if q ∈ names then some vs else getProp ps q := by
+  induction names generalizing ps with
+  | nil => simp
+  | cons n rest ih =>
+    simp only [List.foldl_cons, List.mem_cons]
+    rw [ih, getProp_setProp]
+    by_cases h1 : q ∈ rest
+    · simp [h1]
+    · by_cases h2 : q = n <;> simp [h1, h2]
+
+/-- one more entry of the property map: the properties it names receive the values of its field when
+the field is found; everything else stays -/
+theorem generateProps_snoc (r : RVal) (pmap : List MapEntry) (e : MapEntry) (q : String) :
+    getProp (generateProps r (pmap ++ [e])) q =
+      match fieldValues e.empty (descend r (pathOf e.selector)) with
+      | some vs => if q ∈ e.props then some vs else getProp (generateProps r pmap) q
+      | none => getProp (generateProps r pmap) q := by
+  unfold generateProps
+  rw [List.foldl_append]
+  simp only [List.foldl_cons, List.foldl_nil]
+  cases hf : fieldValues e.empty (descend r (pathOf e.selector)) with
+  | none => rfl
+  | some vs => exact getProp_setAll _ e.props vs q
+
+/-- **C17: object values are taken from the record fields named in the property map**: whatever a
+generated event holds for a property are the values of a field whose path the property map names
+for that property (the last such path that leads somewhere) -/
+theorem generated_from_named_fields (r : RVal) (pmap : List MapEntry) (q : String) (vs : List RVal)
+    (h : getProp (generateProps r pmap) q = some vs) :
+    ∃ e ∈ pmap, q ∈ e.props ∧ fieldValues e.empty (descend r (pathOf e.selector)) = some vs := by
+  induction pmap using List.reverseRecOn with
+  | nil => simp [generateProps, getProp] at h
+  | append_singleton pre e ih =>
+    rw [generateProps_snoc] at h
+    cases hf : fieldValues e.empty (descend r (pathOf e.selector)) with
+    | none =>
+      rw [hf] at h
+      obtain ⟨e', he', hq, hv⟩ := ih h
+      exact ⟨e', by simp [he'], hq, hv⟩
+    | some ws =>
+      rw [hf] at h
+      simp only at h
+      by_cases hq : q ∈ e.props
+      · rw [if_pos hq] at h
+        cases h
+        exact ⟨e, by simp, hq, hf⟩
+      · rw [if_neg hq] at h
+        obtain ⟨e', he', hq', hv⟩ := ih h
+        exact ⟨e', by simp [he'], hq', hv⟩
+
+/-- what a found field gives: the members of a list that are not empty values, a rendered boolean,
+the scalar itself unless it is an empty value -/
+theorem fieldValues_spec (empty : List RVal) (v : RVal) (vs : List RVal) (h : fieldValues empty v = some vs) :
+    match v with
+    | .null => False
+    | .list l => ∀ x, x ∈ vs ↔ x ∈ l ∧ isEmptyVal empty x = false
+    | .bool b => vs = [.str (if b then "true" else "false")]
+    | .int n => vs = if isEmptyVal empty (.int n) then [] else [.int n]
+    | .str s => vs = if isEmptyVal empty (.str s) then [] else [.str s]
+    | .obj kv => vs = if isEmptyVal empty (.obj kv) then [] else [.obj kv] := by
+  cases v with
+  | null => simp [fieldValues] at h
+  | list l =>
+    simp only [fieldValues, Option.some.injEq] at h
+    subst h
+    intro x
+    simp [List.mem_filter]
+  | bool b => simp only [fieldValues, Option.some.injEq] at h; exact h.symm
+  | int n => simp only [fieldValues, Option.some.injEq] at h; exact h.symm
+  | str s => simp only [fieldValues, Option.some.injEq] at h; exact h.symm
+  | obj kv => simp only [fieldValues, Option.some.injEq] at h; exact h.symm
+
+/-- a path that leads nowhere stays nowhere: nothing is made up below a missing field -/
+theorem descend_null (path : List String) : descend .null path = .null := by
+  induction path with
+  | nil => rfl
+  | cons f rest ih => simp only [descend, step]; exact ih
+
+def exRec : RVal := .obj [("name", .str "alice"), ("sub", .obj [("n", .int 7)]), ("tags", .list [.str "a", .str "", .str "b"]),
+  ("flag", .bool true)]
+def exMap : List MapEntry := [⟨"name", ["name", "label"], [.str ""]⟩, ⟨"sub.n", ["n"], [.str ""]⟩, ⟨"tags", ["tags"], [.str ""]⟩,
+  ⟨"flag", ["flag"], [.str ""]⟩, ⟨"missing.x", ["name"], [.str ""]⟩]
+example : pathOf "a..b.0" = ["a", "", "b", "0"] := by decide +kernel
+example : (generateProps exRec exMap).map (·.1) = ["name", "label", "n", "tags", "flag"] := by decide +kernel
+example : (generateProps exRec exMap).map (·.2.length) = [1, 1, 1, 2, 1] := by decide +kernel
+example : (match getProp (generateProps exRec exMap) "n" with | some [.int 7] => true | _ => false) = true := by decide +kernel
+
+end lookup
 
 end EdxmlProps.C17
